@@ -133,6 +133,9 @@ func execM(cd *common.Codec, sc *Scenario, data []byte, x *simkit.Ctx, allocByte
 }
 
 func (Engine) Run(c *simkit.Choices, x *simkit.Ctx) *simkit.Violation {
+	// (for every run of this engine alike, so that a run behaves the same alone
+	// and after other runs of its worker process; see stackBomb)
+	lowerStackOnce.Do(func() { debug.SetMaxStack(64 << 20) })
 	st := x.Stats
 	f := model.Formats[c.N(3)]
 	cd := common.ByName(f)
@@ -396,7 +399,6 @@ var lowerStackOnce sync.Once
 // input byte never notices either limit.
 func stackBomb(c *simkit.Choices, x *simkit.Ctx, cd *common.Codec, f model.Format) *simkit.Violation {
 	st := x.Stats
-	lowerStackOnce.Do(func() { debug.SetMaxStack(64 << 20) })
 	n := []int{1 << 20, 1 << 21}[c.N(2)]
 	data := common.NestBombN(c, f, n)
 	sc := &Scenario{Format: string(f), Doc: fmt.Sprintf("(nest bomb: %d levels, %d bytes, starts %x, ends %x)", n, len(data), data[:8], data[len(data)-4:]),
